@@ -254,8 +254,10 @@ type C04Monitor struct {
 	oracleBroken bool
 	tipsBroken   bool
 	dispBroken   bool
-	fromBond     int64 // accepted fee payments from stake so far
-	ncredits     int64 // credits written so far (each may carry one ulp of rounding)
+	fromBond     int64               // accepted fee payments from stake so far
+	dispPrev     math.Int            // dispute module balance at the last observation point
+	rewardPaid   map[uint64]math.Int // dispute id -> voter rewards paid out so far
+	ncredits     int64               // credits written so far (each may carry one ulp of rounding)
 }
 
 func NewC04Monitor(st *Stats) *C04Monitor {
@@ -311,12 +313,42 @@ func (m *C04Monitor) EndBlockExit(c *Chain, ctx sdk.Context, err error) {
 	}
 }
 
+func (m *C04Monitor) BeforeBlock(c *Chain, ctx sdk.Context) {
+	m.dispPrev = modBal(c, ctx, disputetypes.ModuleName)
+}
+func (m *C04Monitor) BeginBlockExit(c *Chain, ctx sdk.Context, err error) {
+	m.dispPrev = modBal(c, ctx, disputetypes.ModuleName)
+}
+
 func (m *C04Monitor) AfterTx(c *Chain, ctx sdk.Context, tx sdk.Tx, ok bool) {
 	if !ok {
 		return
 	}
+	disp := modBal(c, ctx, disputetypes.ModuleName)
+	defer func() { m.dispPrev = disp }()
 	for _, msg := range tx.GetMsgs() {
 		switch x := msg.(type) {
+		case *disputetypes.MsgClaimReward:
+			// the voters of a dispute share its voter reward: once more than that has left the dispute account for them, the
+			// account no longer covers the unclaimed rewards, fees and stake of the other disputes
+			if d, err := c.App.DisputeKeeper.Disputes.Get(ctx, x.DisputeId); err == nil && !m.dispPrev.IsNil() {
+				if m.rewardPaid == nil {
+					m.rewardPaid = map[uint64]math.Int{}
+				}
+				key := x.DisputeId
+				if len(d.PrevDisputeIds) > 0 {
+					key = d.PrevDisputeIds[0]
+				}
+				paid := m.dispPrev.Sub(disp)
+				if old, ok := m.rewardPaid[key]; ok {
+					paid = paid.Add(old)
+				}
+				m.rewardPaid[key] = paid
+				m.st.Count("c04.reward-pot.evals")
+				if paid.GT(d.VoterReward) {
+					c.Violate("C04", "c04", "voter-rewards-paid-out-exceed-the-disputes-voter-reward", map[string]interface{}{"id": x.DisputeId, "paid_so_far": paid.String(), "voter_reward": d.VoterReward.String()})
+				}
+			}
 		case *disputetypes.MsgProposeDispute:
 			if x.PayFromBond {
 				m.fromBond++
